@@ -38,3 +38,20 @@ Definition run_reparse (c : sexp) : sexp :=
           end
       end
   end.
+
+(** C09 (YAML leg): document -> member-sorted value tree of yaml.Marshal's output, and the marshalled
+    JSON of the re-parse of that output *)
+From GP Require Import Model.MarshalYaml.
+Definition run_reparse_yaml (c : sexp) : sexp :=
+  match parse_doc (gv_of_sexp c) with
+  | Err => L [A "err"]
+  | Ok p _ =>
+      match marshal_yaml p with
+      | None => L [A "marshal-error"]
+      | Some y =>
+          match reparse_yaml p with
+          | Err => L [gv_sexp (gv_sorted y); A "reparse-error"]
+          | Ok p2 _ => L [gv_sexp (gv_sorted y); match marshal_json p2 with Some j2 => json_sexp j2 | None => A "marshal-error" end]
+          end
+      end
+  end.
